@@ -124,6 +124,7 @@ def check(case):
         if set(tail) != set(new):
             raise Violation(ID, "tail-mismatch/keys", "restart has different variables: %r" % sorted(set(tail) ^ set(new), key=repr)[:4])
         timed = {(k[1], k[2]) for k in tail if k[0] == "bins"}
+        control = None
         popmax = {}
         for k, v in tail.items():
             if k[0] == "comp" and v.size:
@@ -151,6 +152,31 @@ def check(case):
             if bad.any() and case["via_spreadsheet"] and not bad[..., :2].any():
                 inconclusive["spreadsheet tail beyond one step differs by more than 1e-9 (amplified 1e-16 storage rounding)"] = 1
                 continue
+            if bad.any() and not exact:
+                # control experiment: restart from the same saved state perturbed in the last bits.  If that run differs from the parent
+                # just as much, the model amplifies rounding (stiff feedback, x**0.25 of a cancellation residue...) and the mismatch is inconclusive
+                if control is None:
+                    ps_c = ps2.copy()
+                    newvals = {}
+                    for n_, (kk, vv) in enumerate(sorted(ps_c.initialization.values.items(), key=lambda kv: repr(kv[0]))):
+                        arr = np.atleast_1d(np.asarray(vv, dtype=float))
+                        eps = (((np.arange(arr.size) + n_) % 3) - 1) * 4.4e-16  # non-uniform, deterministic: -, 0, + in turn
+                        arr = arr * (1.0 + eps)
+                        newvals[kk] = float(arr[0]) if np.isscalar(vv) or np.ndim(vv) == 0 else arr
+                    ps_c.initialization.values = newvals
+                    try:
+                        res_c, _ = simcase.two_step(P2, ps_c, b["progset"], b["instructions"], name="control")
+                        control = canon.result_arrays(res_c)
+                    except Exception:
+                        control = {}
+                yc = control.get(k)
+                if yc is not None and yc.shape == x.shape:
+                    with np.errstate(invalid="ignore"):
+                        # the 4e-16 perturbation is amplified by more than 2500x in this very quantity => ill-conditioned
+                        badc = (np.abs(x - yc) > 1e-12 * np.maximum(np.abs(x), np.abs(yc))) & ~(np.isnan(x) & np.isnan(yc)) & bad
+                    if badc.any():
+                        inconclusive["restart differs beyond tolerance where a control restart from the same state perturbed by 4e-16 deviates by more than 1e-12 (model amplifies rounding)"] = 1
+                        continue
             if bad.any():
                 i = int(np.argwhere(bad)[0][-1])
                 raise Violation(ID, "tail-mismatch/%s%s" % (k[0], "/spreadsheet" if case["via_spreadsheet"] else ""), "restart at index %d (Y=%r, %s comparison): %s at offset %r: original %r, restarted %r" % (iY, Y, mode, k, i, x[..., i].tolist(), y[..., i].tolist()))
